@@ -100,6 +100,10 @@ func (v *VM) exec() {
 		case codeNegate:
 			v.stack[len(v.stack)-1] = v.stack[len(v.stack)-1].opMul(newUntypedInt(-1))
 		case codeBitComplement:
+			if v.stack[len(v.stack)-1].t == untypedInt {
+				v.stack[len(v.stack)-1] = newUntypedInt(^int(v.stack[len(v.stack)-1].num))
+				break
+			}
 			a := v.stack[len(v.stack)-1].assign(TypeNil)
 			b := Uint32(0xffffffff).convert(a.t)
 			v.stack[len(v.stack)-1] = a.opBitXor(b)
